@@ -248,7 +248,9 @@ Init == /\ l = 1 /\ ref = EmptyPres /\ prev = EmptyObs /\ eqSince = FALSE
         /\ famFirst = [fam |-> -1, set |-> FALSE, nf |-> NF(EmptyPres), gens |-> [T \in Types |-> {}]]
 
 Tag(e, S) == { [prop |-> v.prop, what |-> v.what, line |-> l, id |-> e.id] : v \in S }
-AddViol(e, S) == IF Cardinality(viol) < 40 THEN viol \cup Tag(e, S) ELSE viol
+\* at most 5 records per distinct (property, message): many instances of one (possibly known) finding must
+\* not crowd out a different violation later in the same trace
+AddViol(e, S) == viol \cup { v \in Tag(e, S) : Cardinality({ w \in viol : w.prop = v.prop /\ w.what = v.what }) < 5 }
 
 Step ==
   /\ l <= Len(Rec) /\ l' = l + 1
